@@ -593,6 +593,7 @@ def o_c07(rec, table=None):
     elif st == -1:
         if consistent_bounds(b):
             out.append(V("status-1_bounds", "status -1 but lb <= ub holds"))
+    _beyond_barrier(out, float(o.get("target", -math.inf)))
     if res.get("success"):
         if st not in (0, 1, 2, 3, 4):
             out.append(V("success_status", f"success with status {st}"))
@@ -700,13 +701,14 @@ def o_c09(rec, table=None):
             feasible = False
         if b.fun is None and feasible:
             sat.add(4)
-        if b.fun is not None and math.isfinite(target) and \
-                math.isfinite(r["f"]) and r["f"] <= target and feasible:
+        f_ok = b.fun is not None and target > -math.inf and \
+            r["f"] is not None and not math.isnan(r["f"]) and \
+            r["f"] <= target
+        if f_ok and feasible:
             sat.add(1)
         if any(e.get("stop") for e in r["cb"]):
             sat.add(3)
-        if knife and (b.fun is None or (math.isfinite(target)
-                                        and r["f"] <= target)):
+        if knife and (b.fun is None or f_ok):
             info["ambiguous"] = True
             break
         if sat:
@@ -766,7 +768,25 @@ def o_c09(rec, table=None):
             out.append(V("status_without_event",
                          f"status {res.status} reported but no evaluation "
                          f"satisfied that request", status=res.status))
+    _beyond_barrier(out, target)
     return out, info
+
+
+BARRIER_REF = 2.0 ** 100      # documented extreme barrier for float64
+
+
+def _beyond_barrier(viols, target):
+    """A target at or beyond the extreme barrier (+-2**100, +-inf) is
+    compared by the solver with barrier-clipped objective values: label the
+    violations so that the known finding is keyed on this mechanism."""
+    if target is not None and not math.isnan(target) and \
+            abs(target) >= BARRIER_REF:
+        for v in viols:
+            if v["clause"] in ("status_without_event", "status_after_trigger",
+                               "continued_after_trigger",
+                               "nfev_after_trigger", "result_misses_request",
+                               "status1_target", "user_call_after_trigger"):
+                v["witness"]["mechanism"] = "target_beyond_barrier"
 
 
 # ======================================================================= C20
